@@ -115,7 +115,7 @@ SIM = {
                code_env={1002: NOFAULT | {9012, ENV_CONN, ENV_UNHEALTHY}, 1003: NOFAULT | {9012, ENV_CONN, ENV_UNHEALTHY}}),
     "C13": _mk(["G3", "G2"], range(1301, 1306)),
     "C18": _mk(["G1", "G2", "G4", "G6", "G7"], range(1801, 1811), gen=("GenGuards.v", "GenConfig.v", "GenStatus.v")),
-    "C19": _mk(["G1", "G2", "G3", "G5", "G6", "G7"], range(1901, 1903)),
+    "C19": _mk(["G1", "G2", "G3", "G5", "G6", "G7"], range(1901, 1903), gen=("GenGuards.v", "GenConfig.v", "GenTermCtx.v")),
 }
 
 QUICK_N = 160       # scenarios per family
@@ -243,6 +243,28 @@ def status_query():
     return "; ".join("%s at %s" % x for x in m)
 
 
+def termctx_query():
+    """The paths of the regenerated term-context table that fail path_ok, with their operations."""
+    q = os.path.join(vlib.COQ, "TermCtxQuery.v")
+    with open(q, "w") as f:
+        f.write("From LE Require Import Base TermCtx GenTermCtx.\n"
+                "Definition bad := Eval vm_compute in map (fun p => (tp_fn p, tp_pos p, tp_ops p)) (filter (fun p => negb (path_ok p)) term_paths).\n"
+                "Print bad.\nDefinition child := Eval vm_compute in promote_ctx_is_term_child.\nPrint child.\n")
+    vlib.run(["make", "-j16", "gen/GenTermCtx.vo", "TermCtx.vo"], cwd=vlib.COQ, timeout=600)
+    rc, out = vlib.run(["coqc", "-Q", ".", "LE", "TermCtxQuery.v"], cwd=vlib.COQ, timeout=300)
+    for junk in ("TermCtxQuery.v", "TermCtxQuery.vo", "TermCtxQuery.glob", ".TermCtxQuery.aux", "TermCtxQuery.vos", "TermCtxQuery.vok"):
+        try:
+            os.remove(os.path.join(vlib.COQ, junk))
+        except OSError:
+            pass
+    if rc != 0:
+        return ""
+    txt = " ".join(out.split())
+    m = re.search(r"bad = (\[.*?\]) : list", txt)
+    c = re.search(r"child = (\w+)", txt)
+    return (m.group(1)[:1500] if m else "") + ("; promote_ctx_is_term_child = " + c.group(1) if c else "")
+
+
 def sim_check(pid, tier, seed, extra_assumptions=()):
     d = SIM[pid]
     if not d.get("props"):
@@ -256,6 +278,10 @@ def sim_check(pid, tier, seed, extra_assumptions=()):
             bad = status_query()
             if bad:
                 res.tie_broken.append("status-writer table (gen/GenStatus.v): groups that fail the check of Status.v group_ok: " + bad)
+        if pid == "C19" and res.tie_broken:
+            bad = termctx_query()
+            if bad:
+                res.tie_broken.append("term-context table (gen/GenTermCtx.v): paths that fail the check of TermCtx.v path_ok: " + bad)
         flavour = oracles(res, gen_ok)
     if not okb:
         res.tie_broken.append("simulator does not build against /repo: " + blog[-800:])
